@@ -355,8 +355,9 @@ func ruleC18GCMLayout(c *Ctx) {
 	ep := u.Method(pkgApp, "envelopeEncryption", "EncryptPayload")
 	okSize := true
 	n := 0
-	for _, f := range []*ssa.Function{gk, ep} {
-		if f == nil {
+	_, _ = gk, ep
+	for _, f := range u.RepoFuncs {
+		if f == nil || f.Blocks == nil || rootFunc(f).Pkg == nil || rootFunc(f).Pkg.Pkg.Path() != pkgApp {
 			continue
 		}
 		allInstrs(f, func(i ssa.Instruction) {
